@@ -970,3 +970,59 @@ class Normaliser:
                     elif isinstance(v, (ast.keyword, ast.withitem, ast.comprehension)):
                         T().visit(v)
         return changed
+
+
+def propagate_attr_aliases(fn: ast.AST) -> ast.AST:
+    """copy of `fn` in which a local that is assigned exactly once, from a plain attribute chain
+    (`ref = self.stream_reference`), is replaced by that chain at every later read - provided `fn`
+    itself never stores to the chain or to a prefix of it.  The defining assignment stays."""
+    from .core import dotted
+    new = clone(fn)
+    params = {a.arg for a in new.args.args + new.args.kwonlyargs} if hasattr(new, 'args') else set()
+    defs: dict[str, list] = {}
+    stores: set[str] = set()
+    for n in ast.walk(new):
+        tgts = []
+        if isinstance(n, ast.Assign):
+            tgts = n.targets
+        elif isinstance(n, (ast.AnnAssign, ast.AugAssign)):
+            tgts = [n.target]
+        elif isinstance(n, (ast.For, ast.comprehension)):
+            tgts = [n.target]
+        elif isinstance(n, (ast.With,)):
+            tgts = [i.optional_vars for i in n.items if i.optional_vars is not None]
+        elif isinstance(n, ast.NamedExpr):
+            tgts = [n.target]
+        for t in tgts:
+            for x in ast.walk(t):
+                if isinstance(x, ast.Name) and isinstance(x.ctx, ast.Store):
+                    plain = isinstance(n, (ast.Assign, ast.AnnAssign)) and t is x and \
+                        (not isinstance(n, ast.Assign) or len(n.targets) == 1) and getattr(n, 'value', None) is not None
+                    defs.setdefault(x.id, []).append(n if plain else None)
+                elif isinstance(x, ast.Attribute) and isinstance(x.ctx, ast.Store):
+                    d = dotted(x)
+                    if d:
+                        stores.add(d)
+    amap: dict[str, ast.AST] = {}
+    for name, ds in defs.items():
+        if name in params or len(ds) != 1 or ds[0] is None:
+            continue
+        val = ds[0].value
+        d = dotted(val)
+        if not d or not isinstance(val, ast.Attribute):
+            continue
+        if any(d == s_ or d.startswith(s_ + '.') for s_ in stores):
+            continue
+        root = d.split('.')[0]
+        if root in defs and root not in params:
+            continue
+        amap[name] = val
+    if not amap:
+        return new
+
+    class T(ast.NodeTransformer):
+        def visit_Name(self, node):
+            if isinstance(node.ctx, ast.Load) and node.id in amap:
+                return ast.copy_location(clone(amap[node.id]), node)
+            return node
+    return T().visit(new)
